@@ -569,3 +569,29 @@ Definition recover (s : bytes) (cols hidden pk : list bytes) (partial_stmts : li
       end
     end
   end.
+
+(** ** the planner's printer of the CHECK part of CREATE TABLE (sqlite/migrate.go:
+    addTable / check over sqlx.Builder).  Every constraint is written by
+    [b.Comma().NL(); check(b, c)]: the builder's trailing space becomes ", ", then
+    [CONSTRAINT `name` ] (only when named), [CHECK ], the expression. *)
+Definition bt_ident (n : bytes) : bytes := ch_bt :: n ++ [ch_bt].
+Definition starts_lp (s : bytes) : bool := match s with c :: _ => N.eqb c ch_lp | [] => false end.
+Definition ends_rp (s : bytes) : bool := match rev s with c :: _ => N.eqb c ch_rp | [] => false end.
+(** check(): expressions not already wrapped are trimmed and wrapped *)
+Definition check_expr (e : bytes) : bytes :=
+  let t := trim_space e in
+  if starts_lp t && ends_rp t then e else ch_lp :: t ++ [ch_rp].
+Definition print_check (k : option bytes * bytes) : bytes :=
+  (match fst k with
+   | Some n => K_CONSTRAINT ++ [ch_sp] ++ bt_ident n ++ [ch_sp]
+   | None => []
+   end) ++ K_CHECK ++ [ch_sp] ++ check_expr (snd k).
+Definition sep : bytes := [ch_comma; ch_sp].
+Definition checks_text (cks : list (option bytes * bytes)) : bytes :=
+  concat (map (fun k => sep ++ print_check k) cks).
+(** p occurs in s, case-folded *)
+Fixpoint occurs_ci (p s : bytes) : bool :=
+  match lit_ci p s with
+  | Some _ => true
+  | None => match s with [] => false | _ :: s' => occurs_ci p s' end
+  end.
